@@ -1,6 +1,22 @@
 import subprocess, sys
 REPO="/repo"
 CASES=[
+ # --- third batch: restructurings; exit 0 or exit 2 (analysis broken) are acceptable, exit 1 is a false alarm ---
+ ("C18","aldor/aldor/src/file.c","\tint\tfailed = ferror(file);\n\n\tif (fclose(file) != 0) failed = 1;\n\tif (failed) (void) (*fileError)(fn, osIoWrMode);","\tint\tbad = ferror(file);\n\tint\tclosed = fclose(file);\n\n\tif (bad || closed != 0) (void) (*fileError)(fn, osIoWrMode);"),
+ ("C07","aldor/aldor/src/include.c","\t\t\tif (ifState != NoIf) \n\t\t\t*psll = listNConcat(SrcLine)\n\t\t\t(inclError(ALDOR_E_InclIfEof), *psll);\n\t\t\treturn false;","\t\t\tif (ifState == NoIf) return false;\n\t\t\t*psll = listNConcat(SrcLine)\n\t\t\t(inclError(ALDOR_E_InclIfEof), *psll);\n\t\t\treturn false;"),
+ ("C15","aldor/aldor/src/comsg.c","\t\tglno = sposGlobalLine(comsgv[i0]->pos);\n\t\tfor (n = 1; i0 + n < comsgc; n++)\n\t\t\tif (sposGlobalLine(comsgv[i0+n]->pos) != glno) break;","\t\tglno = sposGlobalLine(comsgv[i0]->pos);\n\t\tn = 1;\n\t\twhile (i0 + n < comsgc && sposGlobalLine(comsgv[i0+n]->pos) == glno) n++;"),
+ ("C16","aldor/aldor/src/genc.c","\twhile (nStmts > gcvSMax && gcvSMax > 0) {","\tfor (; nStmts > gcvSMax && gcvSMax > 0; ) {"),
+ ("C03","aldor/aldor/src/ccode.c","\t\tif (a && ccoIsExpr(a) && ccoInfo(ccoTag(a)).kind == CCOK_Prefix)\n\t\t\tcc += ccoPuts(\" \");\n\t\tcc += ccoPrExpr(a, iPrec);","\t\tcc += ccoPrExpr(a, iPrec + 1);"),
+ ("C12","aldor/aldor/src/java/javacode.c","\tjc0PrintOperand(ctxt, thisClss, lhs, thisClss->assoc == JCO_RL);\n\tjcoPContextWrite(ctxt, thisClss->txt);\n\tjc0PrintOperand(ctxt, thisClss, rhs, thisClss->assoc == JCO_LR);","\tBool lp = (thisClss->assoc == JCO_RL), rp = (thisClss->assoc == JCO_LR);\n\tjc0PrintOperand(ctxt, thisClss, lhs, lp);\n\tjcoPContextWrite(ctxt, thisClss->txt);\n\tjc0PrintOperand(ctxt, thisClss, rhs, rp);"),
+ ("C06","aldor/aldor/src/tfsat.c","\tSatMask\t\tmask0 = tfSatInner(mask);","\tSatMask\t\tmask0;\n\tmask0 = tfSatInner(mask);"),
+ ("C10","aldor/aldor/src/store.c","\tnpages\t= 1;\n\tassert(nbytes <= npages*PgSize);\n\tnpcs  = (npages*PgSize)/nbytes;","\tnpages\t= 1;\n\tassert(nbytes <= npages*PgSize);\n\tnpcs  = PgSize/nbytes;"),
+ ("C17","aldor/aldor/src/lib.c","\t/* Check initial section header. */\n\tif( libIndexSect(lib, LIB_INDEX_START).offset != libHdrSize ) {","\t/* Check initial section header. */\n\tif( !(libIndexSect(lib, LIB_INDEX_START).offset == libHdrSize) ) {"),
+ ("C02","aldor/aldor/src/of_deadv.c","\tif (dvUsage(format, index) < val)\n\t\tdvSetUsage(format, index, val);","\tif (val > dvUsage(format, index))\n\t\tdvSetUsage(format, index, val);"),
+ ("C09","aldor/aldor/src/fint.c","\twhile (p < headStack + STACK_SIZE) {\n\t\tp->fiWord = (FiWord) 0;\n\t\tp = (DataObj) (((FiWord *) p) + 1);\n\t}","\tfor (; p < headStack + STACK_SIZE; p = (DataObj) (((FiWord *) p) + 1))\n\t\tp->fiWord = (FiWord) 0;"),
+ ("C05","aldor/aldor/src/foam.c","\t\tfor (i = 0; i < hunks; i++)\n\t\t\tparts[i] = number & 0x7fffffff, number >>= 31;","\t\tfor (i = 0; i < hunks; i++) {\n\t\t\tparts[i] = number & 0x7fffffff;\n\t\t\tnumber >>= 31;\n\t\t}"),
+ ("C13","aldor/aldor/src/scan.c","      case '\"':\n\tif (! sawEscape) inStringLiteral = false;\n\tbreak;","      case '\"':\n\tinStringLiteral = false;\n\tbreak;"),
+ ("C08","aldor/aldor/src/gf_imps.c","\tgen0GVectTable   = tblNew((TblHashFun)strHash, \n\t\t\t\t  (TblEqFun)strEqual);","\tgen0GVectTable   = tblNew((TblHashFun) strHash, (TblEqFun) strEqual);"),
+
  # --- second batch: the newer rules ---
  ("C07","aldor/aldor/src/linear.c","\t\ttl = cdr(tl);\n\t\tif (tl) tl = cdr(tl);","\t\tif (cdr(tl)) tl = cdr(cdr(tl)); else tl = cdr(tl);"),
  ("C07","aldor/aldor/src/syscmd.c","\t\t\tif (comsgErrorCount() != 0)\n\t\t\t\texitFailure();\n\t\t\texitSuccess();","\t\t\tif (comsgErrorCount())\n\t\t\t\texitFailure();\n\t\t\texitSuccess();"),
